@@ -42,6 +42,10 @@ class BaseRequest:
             out_err = errors_map.get(err_cls)
             if out_err:
                 err = out_err
+                if isinstance(err, BaseException):
+                    # the mapped error is one object shared by all requests:
+                    # do not let the frames of earlier raises pile up on it
+                    err = err.with_traceback(None)
                 break
         raise err
 
